@@ -201,8 +201,12 @@ class ColumnProfile:
             new_profile.most_frequent_counts = []
 
         if self.histogram and profile.histogram:
-            my_dgram = distogram.load(self.histogram, self.minimum, self.maximum)
-            profile_dgram = distogram.load(profile.histogram, profile.minimum, profile.maximum)
+            # load() keeps the list it is given and merge() updates it in place: work on copies,
+            # the operands' own histograms must not change
+            my_dgram = distogram.load(list(self.histogram), self.minimum, self.maximum)
+            profile_dgram = distogram.load(
+                list(profile.histogram), profile.minimum, profile.maximum
+            )
             if len(profile.histogram) > len(self.histogram):
                 new_profile.histogram = distogram.merge(profile_dgram, my_dgram).bins
             else:
